@@ -250,6 +250,8 @@ def main():
                              dict(kind="propmatrix", K=K.tolist(), dt=dt,
                                   Nt=Nt, shift=shift, mult=mult, nsub=nsub))
 
+    axis_grid(ck, qr, numpy)
+
     ck.assume("TLC bound: dim 3, values 0..2(3), histories <= 4(6); traces "
               "of dim 2..4 with up to 25 calls are validated step by step")
     ck.assume("numeric clauses are sampled: tolerance 10 x derived truncation "
@@ -259,6 +261,74 @@ def main():
               "order Taylor polynomial is entrywise non-negative (expansion "
               "in M = 1 + K h has coefficients 3/8, 1/3, 1/4, 0, 1/24)")
     return ck.finish()
+
+
+def axis_grid(ck, qr, numpy):
+    """AxisGrid.tla: the sub-axis test that get_PropagationMatrix relies on
+    (is_subset_of / is_superset_of) is sound and, for axes with at least two
+    points, complete; locate / nearest are the lower / nearest neighbour.
+    The exported table is replayed into the real ValueAxis and TimeAxis."""
+    import json
+    import tempfile
+    import shutil
+    from quantarhei.core.valueaxis import ValueAxis
+    cfg = "AxisGrid_large.cfg" if ck.thorough else "AxisGrid.cfg"
+    tmp = tempfile.mkdtemp(prefix="axisgrid_")
+    try:
+        path = os.path.join(tmp, "table.json")
+        ck.tlc("AxisGrid", cfg, workers=4, env={"TABLE_FILE": path})
+        with open(path) as f:
+            rows = json.load(f)["rows"]
+    finally:
+        shutil.rmtree(tmp, ignore_errors=True)
+    ck.tlc("AxisGrid", "AxisGrid_defect.cfg", count=False,
+           expect_violation="ISubsetSound")
+    if len(rows) < 40:
+        raise MachineryFailure("AxisGrid table too small")
+
+    def mk(cls, a):
+        # table values are in units of half a grid unit
+        return cls(a["start"] / 2.0, a["len"], a["step"] / 2.0)
+    for cls in (ValueAxis, qr.TimeAxis):
+        axes = [mk(cls, r["axis"]) for r in rows]
+        for i, r in enumerate(rows):
+            a = axes[i]
+            rp = dict(kind="axis", cls=cls.__name__, axis=r["axis"])
+            with ck.guarded("subaxis-test", cls.__name__, rp, rp):
+                for j, want in enumerate(r["subset_of"]):
+                    got = bool(a.is_subset_of(axes[j]))
+                    got2 = bool(axes[j].is_superset_of(a))
+                    ck.case("subaxis-test", (cls.__name__, i, j),
+                            nontrivial=bool(want))
+                    if got != bool(want) or got2 != bool(want):
+                        ck.violation(
+                            "subaxis-test", "%s:is_subset_of" % cls.__name__,
+                            dict(rp, other=rows[j]["axis"], got=got,
+                                 got_superset=got2, specified=bool(want)),
+                            dict(rp, other=rows[j]["axis"]))
+            with ck.guarded("locate-nearest", cls.__name__, rp, rp):
+                for vs, pr in r["probes"].items():
+                    v = int(vs) / 2.0
+                    try:
+                        loc = a.locate(v)
+                        got = dict(ok=True, locate=[int(loc[0]),
+                                                    int(round(2 * loc[1]))],
+                                   nearest=int(a.nearest(v)))
+                    except Exception as e:
+                        if "out of bounds" not in str(e):
+                            raise
+                        got = dict(ok=False, locate=[0, 0], nearest=0)
+                    ck.case("locate-nearest", (cls.__name__, i, vs),
+                            nontrivial=bool(pr["ok"]))
+                    want = dict(ok=bool(pr["ok"]),
+                                locate=[int(x) for x in pr["locate"]],
+                                nearest=int(pr["nearest"]))
+                    if got != want:
+                        ck.violation("locate-nearest", cls.__name__,
+                                     dict(rp, value=v, got=got,
+                                          specified=want),
+                                     dict(rp, value=v))
+    ck.traces_validated += len(rows)
 
 
 def _imat(a):
